@@ -141,7 +141,7 @@ def main(pids, jobs=16, root=None, verbose=False):
     t0 = time.time()
     muts = collect(pids)
     results = []
-    with cf.ProcessPoolExecutor(max_workers=jobs) as ex:
+    with cf.ProcessPoolExecutor(max_workers=jobs, max_tasks_per_child=1) as ex:          # one fresh process per job: no state carried from one scratch tree to the next
         base = dict(ex.map(baseline_keys, [(pid, root) for pid in sorted({p for p, _ in muts})]))
         for pid, keys in base.items():
             if keys is None:
@@ -169,7 +169,7 @@ def run_for(pid, root=None, jobs=16):
     if not muts:
         return {"mutants": 0}
     results = []
-    with cf.ProcessPoolExecutor(max_workers=jobs) as ex:
+    with cf.ProcessPoolExecutor(max_workers=jobs, max_tasks_per_child=1) as ex:          # one fresh process per job: no state carried from one scratch tree to the next
         base = dict(ex.map(baseline_keys, [(pid, root)]))
         keys = set(base.get(pid) or [])
         for r in ex.map(run_mutant, [(p, m, root, keys) for p, m in muts]):
